@@ -14,9 +14,9 @@ DESC6 = {
  "C03-1": ("Hypergeometric HIN bound cached as max_x from the original sample_size instead of the reduced k", "sample_size > N/2, min(K, N-K) > N - sample_size, and the all-ones word: value outside the support after reflection"),
  "C03-2": ("Gumbel / Frechet redraw loop replaced by x.min(1 - f64::EPSILON/2) (a no-op in f32)", "f32: the all-ones pattern (1 of 2^24) returns +inf"),
  "C03-3": ("Dirichlet stick-breaking: last component returned as 1 - sum(others)", "all alpha <= 0.1 and length >= 4: last component -1 ulp in 4e-4 .. 3e-3 of samples"),
- "C05-1": ("(see NOTES)", "(see NOTES)"),
- "C05-2": ("(see NOTES)", "(see NOTES)"),
- "C05-3": ("(see NOTES)", "(see NOTES)"),
+ "C05-1": ("Zipf normalisation refactored to t = 1 + h(n): the s == 1 arm loses its ln (t = 1 + n)", "s exactly 1 and large n: law exact, acceptance (1 + ln n)/(1 + n): 21 words at n = 1e2, 8800 at 1e5, > 1e5 per call from n ~ 1e7"),
+ "C05-2": ("Zipf: the guards 'x > n -> continue' and 'x infinite -> return x' merged into one continue (undoes fix 265e589)", "n = inf and s within ~1e-5 above 1: acceptance ~710 (s-1): 142 words at 1+1e-5, 1.4e6 at 1+1e-9"),
+ "C05-3": ("Pareto::sample draws again when scale u^(-1/shape) overflows", "tiny shape only: 141 words at shape 1e-5, 1335 at 1e-6, ~1.4e6 at 1e-9"),
  "C08-1": ("integer try_from_u32_lossy round-trip check n < MAX instead of <=", "u8 vectors of exactly 255 entries / i8 of exactly 127: per-length maximum becomes 0, legal 0/1 vectors rejected"),
  "C08-2": ("scale and split merged: a weight equal to floor(sum/len) enters neither work list", "integer types with sum % len != 0 and a weight equal to the truncated average: 0.2-1 % of mass misplaced, zero-weight index 0 returned, weights() wrong"),
  "C08-3": ("trailing zero weights popped before the table is built", "last weight zero: weights() no longer returns the original vector ([3,0] -> [3])"),
